@@ -9,5 +9,5 @@ import (
 )
 
 func main() {
-	drv.Main(map[string]drv.Cmd{"c07": runC07, "inventory": func([]string) error { fmt.Println(inventoryCoq()); return nil }})
+	drv.Main(map[string]drv.Cmd{"c07": runC07, "c07conc": drv.SnapCmd("C07"), "inventory": func([]string) error { fmt.Println(inventoryCoq()); return nil }})
 }
